@@ -346,6 +346,8 @@ def consumer_fallible(m: Fifo, futs: set[str]):
             r, me = method_of(c)
             if me == 'result' and isinstance(r, ast.Name) and r.id in futs:
                 R |= {'Exception'}
+            if me in ('get', 'get_nowait') and r is not None and m.oscope.canon(r) == m.q and (me == 'get_nowait' or kwarg(c, 'timeout') is not None or kwarg(c, 'block') is not None or c.args):
+                R |= {'Empty'}
         # `await t` of the dequeued awaitable
         for n in walk_shallow(a):
             if isinstance(n, ast.Await) and isinstance(n.value, ast.Name) and n.value.id in futs:
@@ -450,24 +452,52 @@ def check_consumer_pairing(ck: Checker, rid: str, m: Fifo, producer_tuple_len=2)
                         continue
             problems.append(f'`{yname}` may come from L{dn.lineno} `{norm_text(st)[:50]}`, which is neither `{fn}.result()`/`await {fn}` nor the exception caught from it')
         ck.ob(rid, m.outer, yn.ast, not problems, '; '.join(problems) if problems else f'`{yname}` is `{fn}`\'s outcome (or the exception caught from that call); `{xn}` and `{fn}` come from this iteration\'s dequeue')
+    # (d) the loop ends normally only on the end marker
+    check_loop_ends_on_marker(ck, rid, m.outer, cfg, loop, zname)
     # (c) one yield per dequeue
     def weight(n: Node):
         return 1 if (n.extra.get('yield') and n.pending is None) else 0
 
+    # counted from the *successful* dequeue (a polling get that timed out has taken nothing)
+    getn = next(n for n in cfg.nodes if loop.id in n.loops and n.pending is None and isinstance(n.ast, ast.Assign) and is_name(n.ast.targets[0], zname) and get_sites(n.ast.value, m.oscope, m.q))
     res = count_minmax(
         cfg,
-        loop.id,
+        getn.id,
         weight,
         stop=lambda nid: loop.id not in cfg.nodes[nid].loops and nid != loop.id,
-        count_on_exc=lambda n: True,
-        start_edges=lambda e: e.kind == 'T',
+        count_on_exc=lambda n: bool(n.extra.get('yield')),
+        start_edges=lambda e: not e.is_exc,
     )
     bad = []
     for term, (lo, hi) in res.items():
         if term[0] == 'back' and (lo, hi) != (1, 1):
-            bad.append(f'an iteration reaches the next dequeue after {lo}..{hi} yields (via L{cfg.nodes[term[1]].lineno})')
+            bad.append(f'after a successful dequeue the next dequeue is reached after {lo}..{hi} yields (via L{cfg.nodes[term[1]].lineno})')
     ck.paths_examined += len(res)
     ck.ob(rid, m.outer, loop.ast, not bad, '; '.join(bad) if bad else 'between two dequeues every path yields exactly once or leaves the loop')
+
+
+def check_loop_ends_on_marker(ck: Checker, rid: str, f, cfg: CFG, loop: Node, zname: str, marker_names=()):
+    """The consumer loop is left normally only on the branch that recognised the producer's end marker
+    (`z is None` / `z == <marker>`): otherwise the tail of the stream can be dropped silently."""
+    term = {}
+    for n in cfg.nodes:
+        if n.kind == 'test' and loop.id in n.loops and isinstance(n.ast, ast.Compare) and is_name(n.ast.left, zname) and len(n.ast.ops) == 1:
+            op, r = n.ast.ops[0], n.ast.comparators[0]
+            if isinstance(op, ast.Is) and is_none(r):
+                term[n.id] = 'T'
+            elif isinstance(op, ast.IsNot) and is_none(r):
+                term[n.id] = 'F'
+            elif isinstance(op, ast.Eq) and isinstance(r, ast.Name) and (not marker_names or r.id in marker_names):
+                term[n.id] = 'T'
+    outside = {k.id for k in cfg.nodes if loop.id not in k.loops and k.id != loop.id and k.id not in (cfg.exit_raise,)}
+    p = path_avoiding(
+        cfg,
+        [e for e in cfg.succ[loop.id] if e.kind == 'T'],
+        outside,
+        # leaving the loop *by an exception* is not a normal end; an exception handled inside the loop is
+        edge_ok=lambda e: not (e.is_exc and loop.id not in cfg.nodes[e.dst].loops) and not (e.src in term and e.kind == term[e.src]) and not ((e.src, e.dst) in cfg.back_edges),
+    )
+    ck.ob(rid, f, loop.ast if loop.ast is not None else (loop.lineno, 'consumer loop'), p is None and bool(term), 'the consumer loop ends normally only after it has dequeued the producer\'s end marker' if p is None and term else 'the consumer loop can end normally without having seen the end marker: elements still in flight (the tail of the stream) are dropped silently', path=fmt_path(cfg, [loop.id] + p) if p else '')
 
 
 def _awaits(n: Node, fn: str) -> bool:
